@@ -162,7 +162,13 @@ pub struct TCase {
     /// the caller's state still holds counters and memories of an earlier run
     #[serde(default)]
     pub stale_state: bool,
+    /// the template is used as a nested heuristic: `nest` scopes deep inside a restart loop of
+    /// `NEST_RESTARTS` passes, followed by a best-individual update at the outer level
+    #[serde(default)]
+    pub nest: u8,
 }
+
+pub const NEST_RESTARTS: u32 = 2;
 
 impl TCase {
     pub fn p(&self, k: &str) -> f64 {
@@ -738,6 +744,14 @@ pub fn gen_case(g: &mut Gen, kind: Kind, o: &GenOpts) -> TCase {
         _ => g.below(o.max_iters as usize + 1) as u32,
     };
     let term = if o.evaluations_term && g.chance(0.3) { Term::Evaluations(g.below(200) as u32) } else { Term::Iterations(iters) };
+    if let (Kind::Iwo, Term::Evaluations(_)) = (kind, term) {
+        // with no seeds at all a pass evaluates nothing: an evaluation budget would never be
+        // used up once all weeds tie (a legitimate endless run, not a subject of any property)
+        let min = p.get("min_number_of_seeds").copied().unwrap_or(1.0).max(1.0);
+        let max = p.get("max_number_of_seeds").copied().unwrap_or(1.0).max(min);
+        p.insert("min_number_of_seeds".into(), min);
+        p.insert("max_number_of_seeds".into(), max);
+    }
     TCase {
         kind,
         params: p,
@@ -749,6 +763,7 @@ pub fn gen_case(g: &mut Gen, kind: Kind, o: &GenOpts) -> TCase {
         log: o.log && g.chance(0.5),
         clone_config: false,
         stale_state: false,
+        nest: 0,
     }
 }
 
@@ -772,6 +787,9 @@ pub fn shrink_case(c: &TCase) -> Vec<TCase> {
     }
     if c.stale_state {
         out.push(TCase { stale_state: false, ..c.clone() });
+    }
+    if c.nest > 0 {
+        out.push(TCase { nest: c.nest - 1, ..c.clone() });
     }
     if let EvalMode::Parallel { workers, sched_seed, pct } = c.evaluator {
         if workers > 2 {
